@@ -132,6 +132,17 @@ CLAIMED["C04"] = dict(
               "table agreement",
     design="3/C04")
 
+CLAIMED["C09"] = dict(
+    text="Decides: printer/parser separator agreement (':' method, path separator for files, 'stage<N>.' prefix), "
+         "exhaustive 16-row truth-table equality of the two sibling classifiers and their agreement with the documented "
+         "formula, the weaker never-expand clauses of expand_potential_component_reference, reserved-folder sets always "
+         "containing the special folders and mapped application dependencies, manifest keys split on the path separator "
+         "(os.pathsep only on environment values), and no stage index for absolute paths. Round-trip and idempotence "
+         "equalities over all strings are not decided.",
+    technique="format/split constant agreement, finite truth tables of classifier predicates (sibling cross-check), "
+              "CFG edge-dominance",
+    design="3/C09")
+
 NOT_APPLICABLE = {
     "C20": "arithmetic over floating-point stage weights (sums, int(w*1000) truncation, fallback split) for every "
            "stage count: no structural clause is a necessary condition; needs numeric exploration or a solver, i.e. "
